@@ -262,6 +262,57 @@ pub fn cmd_poller(a: &[&str]) -> String {
     }
 }
 
-pub fn cmd_e2e(_a: &[&str]) -> String {
-    "unimplemented".into()
+/// e2e <drift> <step> ... ; <real_s> <real_n> <mono_s> <mono_n>
+///   steps as in `history`, plus X = daemon restart (new ShmWriter on the same file, fresh ShmUpdater).
+/// The REAL ShmUpdater writes through the REAL ShmWriter into a /dev/shm file; then the REAL ClockBoundClient opens the file
+/// and evaluates now() at the given virtual (realtime, monotonic) readings.
+pub fn cmd_e2e(a: &[&str]) -> String {
+    let k = match a.iter().position(|x| *x == ";") {
+        Some(k) => k,
+        None => return "usage".into(),
+    };
+    let drift: u32 = a.get(0).and_then(|x| x.parse().ok()).unwrap_or(1000);
+    let tail: Vec<i64> = a[k + 1..].iter().map(|x| x.parse().unwrap_or(0)).collect();
+    if tail.len() < 4 {
+        return "usage".into();
+    }
+    let path = crate::seg::tmp_path("e2e");
+    let res = std::panic::catch_unwind(std::panic::AssertUnwindSafe(|| {
+        let mk = |p: &str| vs::Updater::new(clock_bound_shm::ShmWriter::new(std::path::Path::new(p)).expect("ShmWriter::new"), drift);
+        let mut up = mk(&path);
+        for step in &a[1..k] {
+            let p: Vec<&str> = step.split(',').collect();
+            match p[0] {
+                "R" => {
+                    let t = tracking(f64_of_hex(p[1]), f64_of_hex(p[2]), f64_of_hex(p[3]), f64_of_hex(p[4]), p[5].parse().unwrap(), ref_time_for_age(p[6].parse().unwrap()), 0);
+                    set_clock(BASE_SECS as i128 * 1_000_000_000, 0);
+                    up.clock_update(t, p[7].parse().unwrap(), libc::timespec { tv_sec: p[8].parse().unwrap(), tv_nsec: p[9].parse().unwrap() });
+                    clock_off();
+                }
+                "G" => up.missing(true),
+                "N" => up.missing(false),
+                "X" => {
+                    drop(up);
+                    up = mk(&path);
+                }
+                _ => {}
+            }
+        }
+        set_clock(tail[0] as i128 * 1_000_000_000 + tail[1] as i128, tail[2] as i128 * 1_000_000_000 + tail[3] as i128);
+        let out = match clock_bound_client::ClockBoundClient::new_with_path(&path) {
+            Err(e) => format!("open_err={:?}", e.kind),
+            Ok(mut c) => match c.now() {
+                Ok(r) => format!("interval={}:{}:{}:{}:{}", r.earliest.tv_sec(), r.earliest.tv_nsec(), r.latest.tv_sec(), r.latest.tv_nsec(), r.clock_status as i32),
+                Err(e) => format!("now_err={:?}", e.kind),
+            },
+        };
+        clock_off();
+        out
+    }));
+    clock_off();
+    let _ = std::fs::remove_file(&path);
+    match res {
+        Ok(s) => format!("ok {}", s),
+        Err(p) => format!("panic {}", crate::panic_msg(&p)),
+    }
 }
